@@ -487,6 +487,16 @@ func propC09(c *Ctx) {
 	}
 	c.NT(int64(len(years)) * 100 * 100 * 4)
 	// 5-9 digit years
+	// year digit counts around the grammar's 4..9 window (3 and 10 digits must be refused)
+	for _, ys := range []string{"999", "0999", "1234567890", "0000002024", "12345678901", "99999999999", "000"} {
+		for _, rest := range []string{"-01-01", "0101", "-12-31", "1231"} {
+			for _, ml := range []int{0, 15, 20} {
+				in := ys + rest
+				checkDateParse(c, in, ml, 0)
+				c.Op(fmt.Sprintf("date.parse %d 0 %s", ml, hx([]byte(in))))
+			}
+		}
+	}
 	for _, y := range []int{10000, 99999, 123456, 1000000, 99999999, 999999999, 400000000} {
 		for _, md := range [][2]int{{0, 1}, {1, 0}, {1, 1}, {2, 28}, {2, 29}, {2, 30}, {4, 31}, {12, 31}, {12, 32}, {13, 1}} {
 			for _, ml := range []int{0, 8, 10, 15} {
